@@ -93,10 +93,17 @@ def render(case, info):
     files = {}
     ph_lines = {p: [] for p in ['conf', 'setup', 'act', 'before-assert', 'assert', 'cleanup']}
     conf = case['conf']
+    conf_lines = []
+    up = '../' if conf.get('cinc') else ''  # the settings are relative to the file that contains them
     if ref.HOME_CONF_TEXT[conf['home']]:
-        ph_lines['conf'].append('home = ' + ref.HOME_CONF_TEXT[conf['home']])
+        conf_lines.append('home = ' + up + ref.HOME_CONF_TEXT[conf['home']])
     if ref.ACT_HOME_CONF_TEXT[conf['act_home']]:
-        ph_lines['conf'].append('act-home = ' + ref.ACT_HOME_CONF_TEXT[conf['act_home']])
+        conf_lines.append('act-home = ' + up + ref.ACT_HOME_CONF_TEXT[conf['act_home']])
+    if conf.get('cinc') and conf_lines:
+        files[ref.CASE_DIR + '/inc/conf.xly'] = '\n'.join(conf_lines) + '\n'
+        ph_lines['conf'].append('including inc/conf.xly')
+    else:
+        ph_lines['conf'].extend(conf_lines)
     ph_lines['setup'].append('$ cp -R {ROOT}/fix/. ..')
     act = case['act']
     if act['k'] == 'plain':
@@ -109,13 +116,20 @@ def render(case, info):
         L = ph_lines[op['ph']]
         k = op['k']
         if k == 'defstr':
-            L.append('def string %s = "%s"' % (op['name'], op['val']))
+            L.append('def string %s = "%s%s"' % (op['name'], '@[%s]@' % (op.get('pref') or op.get('sref'))
+                                                 if (op.get('pref') or op.get('sref')) else '', op['val']))
         elif k == 'def':
             line = 'def path %s = %s' % (op['name'], render_expr(op['expr']))
-            if op.get('inc'):
+            inc = int(op.get('inc') or 0)
+            if inc == 1:
                 fn = 'inc/d%d.xly' % i
                 files[ref.CASE_DIR + '/' + fn] = line + '\n'
                 L.append('including ' + fn)
+            elif inc == 2:
+                # included from an included file, one directory further down
+                files[ref.CASE_DIR + '/inc/i%d.xly' % i] = 'including deep/d%d.xly\n' % i
+                files[ref.CASE_DIR + '/inc/deep/d%d.xly' % i] = line + '\n'
+                L.append('including inc/i%d.xly' % i)
             else:
                 L.append(line)
         elif k == 'cd':
@@ -236,7 +250,7 @@ def observe(ws, r, snap_before):
     o.err = r.err
     o.ident = r.first_err_line
     o.exception = r.exception
-    o.created = list(r.created_dirs)
+    o.created = list(r.created_dirs) or list(r.sandboxes if not r.out else [])
     o.sb = None
     if r.out.endswith('\n') and r.out.count('\n') == 1 and os.path.isdir(r.out[:-1]):
         o.sb = r.out[:-1]
@@ -377,14 +391,33 @@ def compare_rejected(idents, o, executed_ok=False):
     return compare_outside(None, o)
 
 
+DEFECT_MODELS = {
+    'KF-C12-1': 'an absolute FILE-NAME (constant or the value of a string symbol) swallows the RELATIVITY it is '
+                'combined with: the path is the FILE-NAME; a symbol defined that way keeps the declared relativity '
+                'for validation',
+    'KF-C12-2': 'an absolute FILE-NAME without RELATIVITY (constant or via a string symbol) is accepted by a '
+                'destination argument and the file is made there',
+    'KF-C12-3': '`dir-contents` accepts -rel-home (option or symbol) and resolves it correctly although `help assert '
+                'dir-contents` does not list it among the accepted relativities',
+}
+
 REJ = {'syntax': {'SYNTAX_ERROR'}, 'validation': {'VALIDATION_ERROR'},
        'either': {'SYNTAX_ERROR', 'VALIDATION_ERROR'}}
 
 
-def check(case) -> Verdict:
+def check_subprocess(case) -> Verdict:
+    return check(case, subproc=True)
+
+
+def check(case, subproc=False) -> Verdict:
     with driver.Workspace() as ws:
         sim = ref.simulate(case, 'literal', ws.subst)
-        sim_bug = ref.simulate(case, 'bug', ws.subst) if sim.irregular else None
+        try:
+            sim_bug = ref.simulate(case, 'bug', ws.subst)
+            if not sim_bug.state.used:
+                sim_bug = None  # no defect model applies to this case
+        except ref.Broken:
+            sim_bug = None
         info = dict(sim.state.info)
         if sim_bug is not None:
             info.update(sim_bug.state.info)
@@ -393,7 +426,10 @@ def check(case) -> Verdict:
         for rel, text in sorted(files.items()):
             ws.write(rel, text)
         before = (driver.tree_snapshot(ws.home), driver.tree_snapshot(os.path.join(ws.root, 'absarea')))
-        r = driver.run_inproc(ws, ['--keep', ref.CASE_DIR + '/t.case'])
+        inv = case['conf'].get('inv', 0)
+        argv = ['--keep', [ref.CASE_DIR + '/t.case', 't.case', os.path.join(ws.home, ref.CASE_DIR, 't.case')][inv]]
+        cwd = os.path.join(ws.home, ref.CASE_DIR) if inv == 1 else ws.home
+        r = (driver.run_subproc if subproc else driver.run_inproc)(ws, argv, cwd=cwd)
         if r.timed_out:
             return Verdict(inconclusive=True, labels=['timeout'])
         o = observe(ws, r, before)
@@ -421,6 +457,12 @@ def check(case) -> Verdict:
             labels.add('home-redirected')
         if any(op['k'] == 'def' and op.get('inc') for op in case['ops']):
             labels.add('def-in-included-file')
+        if any(op['k'] == 'def' and int(op.get('inc') or 0) == 2 for op in case['ops']):
+            labels.add('def-in-nested-include')
+        if case['conf'].get('cinc') and (case['conf']['home'] or case['conf']['act_home']):
+            labels.add('conf-in-included-file')
+        if any(op['k'] == 'defstr' and op.get('sref') for op in case['ops']):
+            labels.add('string-symbol-chain')
         if any(op['k'] == 'def' and op['expr'].get('rel') == 'here' for op in case['ops']):
             labels.add('rel-here')
         cls = 'valid'
@@ -436,6 +478,10 @@ def check(case) -> Verdict:
         if case.get('irr'):
             labels.add('gen:' + str(case['irr']).split(':')[0])
         labels.add('outcome:%s' % (o.ident if o.ident in IDENT_EXIT else 'other'))
+        if inv:
+            labels.add('invoked:%s' % ['', 'from-case-dir', 'absolute-path'][inv])
+        if subproc:
+            labels.add('subprocess')
         labels = sorted(labels)
 
         # ---- acceptable outcomes under the correct readings ----------------------------------------------------
@@ -476,9 +522,8 @@ def check(case) -> Verdict:
             else:
                 pb = compare_executed(case, sim_bug, o, ws)
             if pb is None:
-                kf = 'KF-C12-2' if sim.irregular[0] == 'abs-dest' else 'KF-C12-1'
-                detail['defect_model'] = ('absolute FILE-NAME swallows the given RELATIVITY' if kf == 'KF-C12-1'
-                                          else 'absolute FILE-NAME accepted as destination')
+                kf = sorted(sim_bug.state.used)[0]
+                detail['defect_model'] = DEFECT_MODELS[kf]
                 hm = compare_outside(None, o)
                 return Verdict(ok=False, known=kf, bucket='%s/%s' % (kf, 'home-modified' if hm else 'escaped'),
                                detail=detail, labels=labels + ['known:' + kf], nontrivial=nontrivial)
@@ -553,9 +598,19 @@ def enum_manual(tier):
             yield {'site': site, 'page': i}
 
 
+def enum_subprocess(tier):
+    """a sample of the matrix through a real OS process (guards against artefacts of the in-process harness)"""
+    step = 131 if tier == 'quick' else 17
+    for i, c in enumerate(gen.dest_matrix('quick')):
+        if i % step == 0:
+            yield c
+
+
 SUBS = [
     Sub('manual_agrees', check_manual, enumerate=enum_manual, exhaustive=True),
     Sub('dest_matrix', check, enumerate=gen.dest_matrix, exhaustive=True, render=render_for_evidence),
     Sub('paths', check, strategy=lambda tier: gen.cases(tier), budget={'quick': 4000, 'thorough': 100000},
+        render=render_for_evidence),
+    Sub('subprocess_differential', check_subprocess, enumerate=enum_subprocess, exhaustive=False,
         render=render_for_evidence),
 ]
